@@ -349,6 +349,9 @@ class SDateTime:
             add(z_valid_date(y, m, d), H >= 0, H <= 23, M >= 0, M <= 59, S_ >= 0, S_ <= 59, us >= 0, us <= 999999)
             clk = cls(*[SInt(x) for x in v], _trusted=True)
             c.notes["clock"] = clk
+            # the clock is an input of the path: models of an inconclusive path carry its value to the concrete probe
+            for f, x in zip(_FIELDS, v):
+                core.register_input("clock_" + f, x)
         return clk
 
     @classmethod
